@@ -16,6 +16,10 @@ func doAPISequence(seq string) outcome {
 	docs := map[string]interface{}{}
 	docCanon := map[string]string{}
 	var answers []string
+	lastAST := map[string]struct {
+		node jmespath.ASTNode
+		dump string
+	}{}
 	for _, op := range strings.Split(seq, ";") {
 		parts := strings.Split(op, ".")
 		ans := "bad-op"
@@ -81,6 +85,14 @@ func doAPISequence(seq string) outcome {
 				ans = errBase(perr)
 			} else {
 				ans = "ok " + jmespath.VerifDumpAST(node)
+				// an AST handed out earlier by the same Parser must not change when the Parser is used again
+				if prev, ok := lastAST[k]; ok && jmespath.VerifDumpAST(prev.node) != prev.dump {
+					o.flags = append(o.flags, "astchanged")
+				}
+				lastAST[k] = struct {
+					node jmespath.ASTNode
+					dump string
+				}{node, jmespath.VerifDumpAST(node)}
 			}
 		}
 		answers = append(answers, ans)
